@@ -1,7 +1,8 @@
 (* C15 — Client bounds its peers, survives failed rendezvous, always shuts down.
    Models: coq/Model/Peers.v (interleaving machine; V0 = pinned code, V1 = code with
    proposed-fixes/C15-end-once.diff and C15-collect-send-select-melt.diff) and
-   coq/Model/Connect.v (CV0 pinned, CV1 = with C15-nil-pc.diff).
+   coq/Model/Connect.v (CV0 pinned, CV1 = with C15-nil-pc.diff); coq/Model/PeerLife.v (last part of this file) puts
+   the life cycle of a WebRTCPeer - Close as two steps, peers quiet for longer than SnowflakeTimeout - on top of Peers.v.
    `reachable v max s`: s is reached from `init max` by ANY finite interleaving of Collect steps,
    any number of Pop and End callers, and peers closing on their own (unbounded).
 
@@ -32,7 +33,7 @@
    stay theorem-only; a change of preparePeerConnection that, say, forgot pc.Close() on those branches would not be seen
    by the correspondence. *)
 From Coq Require Import List Arith Bool.
-From Snow Require Import Model.Peers Model.Connect Model.CloseConn Proofs.PeersProofs Proofs.PeersRetryProofs Proofs.ConnectProofs Proofs.CloseConnProofs.
+From Snow Require Import Model.Peers Model.Connect Model.CloseConn Model.PeerLife Proofs.PeersProofs Proofs.PeersRetryProofs Proofs.ConnectProofs Proofs.CloseConnProofs Proofs.PeerLifeProofs.
 Import ListNotations.
 
 (* ---- bound.  "Held" = every peer that Catch has ever returned and that is not closed (they are all
@@ -316,3 +317,72 @@ Proof.
   exists c. split; [eapply crun_reachable; [apply creach_init|exact E]|].
   vm_compute in E. inversion E; subst. repeat split.
 Qed.
+
+(* ==== the life cycle of a peer (coq/Model/PeerLife.v): WebRTCPeer.Close is TWO steps - LL_CloseBegin p (Close enters
+   once.Do; the code closes the `closed` channel first, so Closed() answers true from here on) and LL_CloseEnd p (cleanup()
+   has torn down the pipe, the DataChannel and the PeerConnection) - and a peer may have been quiet for longer than
+   SnowflakeTimeout (LL_Quiet / LL_Recv) without anybody having closed it.  `lreachable v FlagFirst max s`: s is reached
+   by ANY interleaving of the Peers machine's steps with Close calls beginning and ending and peers going quiet and
+   receiving again.  begun s p = somebody has begun to close p; untouched s p = negb (begun s p). *)
+
+(* ---- "never hands a peer that is already closed to the data path", at the granularity of Close: whenever a Pop call
+   comes to return a peer - by whatever step of whatever thread - nobody had BEGUN to close that peer (so nothing of it was
+   torn down), and the step is that popper's own test of Closed() *)
+Theorem C15_pop_never_closing : forall v max s l s' i p, lreachable v FlagFirst max s -> lstep v FlagFirst s l = Some s' ->
+  nth_error (pops (lp s')) i = Some (P_Ret (Some p)) -> nth_error (pops (lp s)) i <> Some (P_Ret (Some p)) ->
+  l = LL_P (Pop_check i) /\ begun s p = false /\ torn s p = false /\ begun s' p = false.
+Proof. exact pop_hands_out_untouched. Qed.
+
+(* ---- this depends on the order inside Close: with cleanup() before close(c.closed) (FlagLast) Pop hands the data path a
+   spare whose teardown is in progress *)
+Theorem C15_close_flag_last_refuted : exists s, lrun V1 FlagLast (linit 2) trace_flag_last = Some s /\
+  nth_error (pops (lp s)) 0 = Some (P_Ret (Some 0)) /\ begun s 0 = true /\ torn s 0 = false.
+Proof. exact flag_last_pop_refuted. Qed.
+
+Example C15_ex_pop_skips_closing : exists s, lrun V1 FlagFirst (linit 2) (trace_flag_last ++ [LL_P (Pop_recv 0); LL_P (Pop_check 0)]) = Some s /\
+  lreachable V1 FlagFirst 2 s /\
+  nth_error (pops (lp s)) 0 = Some (P_Ret (Some 1)) /\ begun s 0 = true /\ torn s 0 = false /\ begun s 1 = false.
+Proof. exact flag_first_pop_skips. Qed.
+
+(* ---- Count()/purgeClosedPeers only ever drops a peer somebody has begun to close: every other peer ever caught is in
+   activePeers (or in the collector's hand between Catch and PushBack) in EVERY reachable state, however long it has been
+   quiet (quiet s p is not even mentioned) *)
+Theorem C15_untouched_tracked : forall v max s p, lreachable v FlagFirst max s ->
+  p < next_peer (lp s) -> begun s p = false -> In p (active (lp s)) \/ col (lp s) = C_Caught p.
+Proof. exact untouched_tracked. Qed.
+
+(* ---- the purge of Collect removes EXACTLY the peers whose Close has begun, and changes nothing else about the peers *)
+Theorem C15_purge_exact : forall v max s s', lreachable v FlagFirst max s ->
+  lstep v FlagFirst s (LL_P Col_check) = Some s' -> melted (lp s) = false ->
+  active (lp s') = filter (untouched s) (active (lp s)) /\ begun s' = begun s /\ quiet s' = quiet s.
+Proof. exact purge_exact. Qed.
+
+Theorem C15_quiet_peer_kept : forall v max s s' p, lreachable v FlagFirst max s ->
+  lstep v FlagFirst s (LL_P Col_check) = Some s' -> melted (lp s) = false ->
+  In p (active (lp s)) -> begun s p = false -> In p (active (lp s')) /\ begun s' p = false.
+Proof. exact quiet_peer_kept. Qed.
+
+(* ---- the bound and End, over "Close has not begun": at most Max peers nobody has begun to close; once an End call has
+   returned, Close has begun on every peer ever caught, and the peers End itself closed are torn down *)
+Theorem C15_bound_untouched : forall v max s, lreachable v FlagFirst max s ->
+  length (filter (untouched s) (seq 0 (next_peer (lp s)))) <= max.
+Proof. exact untouched_bound. Qed.
+
+Theorem C15_end_begins_all : forall v max s i p, lreachable v FlagFirst max s ->
+  nth_error (ends (lp s)) i = Some E_Done -> p < next_peer (lp s) -> begun s p = true.
+Proof. exact end_begins_all. Qed.
+
+Theorem C15_end_tears_down : forall v o s i s' p, lstep v o s (LL_P (End_closepeers i)) = Some s' ->
+  In p (active (lp s)) -> closedf (lp s) p = false -> begun s' p = true /\ torn s' p = true.
+Proof. exact end_tears_down. Qed.
+
+(* a quiet peer in use with Max 1: reachable, not closed, in the list; the purge keeps it and Collect is refused *)
+Example C15_ex_quiet_peer : exists s s', lrun V1 FlagFirst (linit 1) trace_quiet = Some s /\ lreachable V1 FlagFirst 1 s /\
+  quiet s 0 = true /\ begun s 0 = false /\ melted (lp s) = false /\ In 0 (active (lp s)) /\
+  lstep V1 FlagFirst s (LL_P Col_check) = Some s' /\ col (lp s') = C_Unlock R_AtCap.
+Proof. exact quiet_example. Qed.
+
+Example C15_ex_end_during_teardown : exists s, lrun V1 FlagFirst (linit 2) trace_end_life = Some s /\ lreachable V1 FlagFirst 2 s /\
+  nth_error (ends (lp s)) 0 = Some E_Done /\ next_peer (lp s) = 2 /\
+  begun s 0 = true /\ torn s 0 = false /\ begun s 1 = true /\ torn s 1 = true.
+Proof. exact end_life_example. Qed.
